@@ -36,3 +36,12 @@ LEVEL_TEXT = ('Kernel-checked: the frontier invariant is re-established by initC
 LEVEL_NOTE = ("Trusted: Coq kernel + vm_compute; Gallina Keccak (cross-checked); hand transcription of AddLeaf/initCache/Bridge.Hash and of the "
               "Solidity DepositContract; SQLite; the theorems that read stored nodes assume an injective node hash (stated hypothesis).")
 TECHNIQUE = "Coq proof by induction over tree height (frontier invariant) + differential correspondence via vm_compute"
+
+# the injected-GER store part of C07 (real lastgersync processor under storage faults vs a fault-free twin)
+import ger_common
+PROPERTIES_V = PROPERTIES_V + ["theories/Properties/GerStore.v"]
+MAKE_TARGETS = MAKE_TARGETS + ["theories/Properties/GerStore.vo"]
+
+
+def extra_checks(chk):
+    ger_common.run_c07_part(chk)
